@@ -895,8 +895,9 @@ def comprehension_form(trees):
     def pieces(body):
         """([conditions], final statement) or None"""
         conds = []
+        from .cfg import is_logging_stmt
         while True:
-            body = [b for b in body if not isinstance(b, ast.Pass)]
+            body = [b for b in body if not isinstance(b, ast.Pass) and not is_logging_stmt(b)]
             if len(body) == 1 and isinstance(body[0], ast.If) and not body[0].orelse:
                 conds.append(body[0].test)
                 body = body[0].body
@@ -1246,3 +1247,130 @@ def inline_new_constants(trees):
             applied.setdefault(rel, []).append(name)
         ast.fix_missing_locations(tree)
     return applied
+
+
+# --------------------------------------------------------------------------------------------- conditional expressions, walrus
+def _map_blocks(fn_or_stmt_list, f):
+    """apply f(list of statements) -> list to every statement list, innermost first"""
+    def rec(stmts):
+        for s in stmts:
+            if isinstance(s, (ast.FunctionDef, ast.AsyncFunctionDef, ast.ClassDef)):
+                continue
+            for fld in ("body", "orelse", "finalbody"):
+                b = getattr(s, fld, None)
+                if isinstance(b, list) and b and isinstance(b[0], ast.stmt):
+                    setattr(s, fld, rec(b))
+            for h in getattr(s, "handlers", []) or []:
+                h.body = rec(h.body)
+        return f(stmts)
+    return rec(fn_or_stmt_list)
+
+
+def desugar_conditional_expressions(trees):
+    """`T = A if C else B` is `if C: T = A else: T = B`; `return A if C else B` likewise (statement level only:
+    a conditional expression nested inside a larger expression stays)."""
+    n = 0
+
+    def f(stmts):
+        nonlocal n
+        out = []
+        for s in stmts:
+            v = getattr(s, "value", None) if isinstance(s, (ast.Assign, ast.Return, ast.AugAssign)) else None
+            if isinstance(v, ast.IfExp) and not (isinstance(s, ast.Assign) and any(not isinstance(t, (ast.Name, ast.Attribute)) for t in s.targets)):
+                def mk(val):
+                    c = copy.copy(s)
+                    c.value = val
+                    if isinstance(c, ast.Assign):
+                        c.targets = copy.deepcopy(s.targets)
+                    elif isinstance(c, ast.AugAssign):
+                        c.target = copy.deepcopy(s.target)
+                    return c
+                new = ast.copy_location(ast.If(test=v.test, body=f([mk(v.body)]), orelse=f([mk(v.orelse)])), s)
+                out.append(new)
+                n += 1
+            else:
+                out.append(s)
+        return out
+    for tree in trees.values():
+        for parts, fn in alpha.walk_functions(tree):
+            fn.body = _map_blocks(fn.body, f)
+        ast.fix_missing_locations(tree)
+    return n
+
+
+def desugar_walrus(trees):
+    """`if (x := E) is None:` is `x = E` followed by `if x is None:`; a walrus in a later conjunct of an `and`
+    splits the test (`if A and (x := E) ...: B else: C` is `if A: x = E; if x ...: B else: C else: C`)."""
+    n = 0
+
+    def leftmost_walrus(e):
+        """the NamedExpr evaluated first in e (nothing but stable reads before it), else None"""
+        if isinstance(e, ast.NamedExpr):
+            return e
+        if isinstance(e, ast.Compare):
+            return leftmost_walrus(e.left) or (leftmost_walrus(e.comparators[0]) if _stable(e.left) else None)
+        if isinstance(e, ast.UnaryOp):
+            return leftmost_walrus(e.operand)
+        if isinstance(e, ast.BoolOp):
+            return leftmost_walrus(e.values[0])
+        if isinstance(e, ast.Call):
+            for p_ in [e.func] + list(e.args):
+                w = leftmost_walrus(p_)
+                if w is not None:
+                    return w
+                if not _stable(p_) and not (isinstance(p_, ast.Attribute) and _stable(p_.value)):
+                    return None
+        if isinstance(e, ast.Attribute):
+            return leftmost_walrus(e.value)
+        return None
+
+    class Repl(ast.NodeTransformer):
+        def __init__(self, w):
+            self.w = w
+
+        def visit_NamedExpr(self, x):
+            if x is self.w:
+                return ast.copy_location(ast.Name(id=x.target.id, ctx=ast.Load()), x)
+            return self.generic_visit(x)
+
+    def has_walrus(e):
+        return any(isinstance(x, ast.NamedExpr) for x in ast.walk(e))
+
+    def f(stmts):
+        nonlocal n
+        out = []
+        for s in stmts:
+            if isinstance(s, ast.If) and has_walrus(s.test):
+                done = False
+                for _ in range(4):
+                    w = leftmost_walrus(s.test)
+                    if w is not None:
+                        out.append(ast.copy_location(ast.Assign(targets=[ast.Name(id=w.target.id, ctx=ast.Store())], value=w.value), s))
+                        s.test = Repl(w).visit(s.test)
+                        n += 1
+                        done = True
+                        continue
+                    t = s.test
+                    if isinstance(t, ast.BoolOp) and isinstance(t.op, ast.And) and has_walrus(t) and not has_walrus(t.values[0]):
+                        rest = t.values[1:]
+                        inner_test = rest[0] if len(rest) == 1 else ast.copy_location(ast.BoolOp(op=ast.And(), values=rest), t)
+                        inner = ast.copy_location(ast.If(test=inner_test, body=s.body, orelse=copy.deepcopy(s.orelse)), s)
+                        s.test, s.body = t.values[0], f([inner])
+                        n += 1
+                        done = True
+                    break
+                out.append(s)
+                continue
+            if isinstance(s, (ast.Assign, ast.Expr, ast.Return)) and s.value is not None and has_walrus(s.value):
+                w = leftmost_walrus(s.value)
+                if w is not None:
+                    out.append(ast.copy_location(ast.Assign(targets=[ast.Name(id=w.target.id, ctx=ast.Store())], value=w.value), s))
+                    s.value = Repl(w).visit(s.value)
+                    n += 1
+            out.append(s)
+        return out
+    for tree in trees.values():
+        for parts, fn in alpha.walk_functions(tree):
+            fn.body = _map_blocks(fn.body, f)
+        ast.fix_missing_locations(tree)
+    return n
